@@ -1,3 +1,356 @@
-/- C08 property theorems (not written yet) -/
+/-
+C08 — multi-value containers behave like their documented model.
+Property theorems only (helper lemmas: Lemmas/Containers.lean; models: Model/Containers.lean,
+Model/Headers.lean; generated tables: Gen/Containers.lean).
+-/
+import WzVerif.Lemmas.Containers
 namespace Wz.Props.C08
+open Wz Wz.C08L
+
+/-! ## Immutable variants: every mutator of the mutable base is blocked
+
+`Gen.Containers.immTable` is regenerated on every run from the live classes: for each immutable
+class, the mutator names of its mutable base (found behaviourally) and the names the immutable
+class answers with `TypeError` leaving the object unchanged. -/
+
+/-- the two (class, method) pairs that are *not* blocked in the unchanged tree: findings F08e, F08f -/
+def immExceptions : List (String × String) := [("ImmutableList", "clear"), ("EnvironHeaders", "clear")]
+
+def immBlocksAll (except : List (String × String)) : Bool :=
+  Gen.Containers.immTable.all fun (cls, _, muts, blocked) =>
+    muts.all fun m => blocked.contains m || except.contains (cls, m)
+
+/-- Every mutator of `list` / `dict` / `TypeConversionDict` / `MultiDict` / `Headers` is answered
+with TypeError (object unchanged) by `ImmutableList`, `ImmutableDict`, `ImmutableTypeConversionDict`,
+`ImmutableMultiDict`, `CombinedMultiDict`, `EnvironHeaders` — except the two `clear` methods listed in
+`immExceptions`. (`decide` over the regenerated table.) -/
+theorem immutable_blocks_all_partial : immBlocksAll immExceptions = true := by decide
+
+/-- The full statement ("every mutator is blocked") is false on this tree: `ImmutableList.clear`
+empties the list and `EnvironHeaders.clear` returns silently (F08e, F08f). -/
+theorem immutable_blocks_all_full_false : ¬ (immBlocksAll [] = true) := by decide
+
+/-- ... and each listed exception really is an unblocked mutator (the exception list is minimal). -/
+theorem immutable_exceptions_minimal :
+    immBlocksAll [("ImmutableList", "clear")] = false ∧ immBlocksAll [("EnvironHeaders", "clear")] = false := by
+  decide
+
+/-! ## MultiDict refines the insertion-ordered multimap -/
+section MultiDict
+open PyDict MD MDSpec
+variable {κ ν : Type} [DecidableEq κ]
+
+/-- One step: on a well-formed state (distinct keys, no empty value list) every public mutator of
+`MultiDict` — `d[k]=v`, `del d[k]`, `add`, `setlist`, `setdefault`, `setlistdefault`, `update`,
+`|=`, `pop`, `popitem`, `poplist`, `popitemlist`, `clear` — changes the state and returns / raises
+exactly as the multimap model does, provided the call does not give a key zero values
+(`okOp`: `setlist(k, [])`, `setlistdefault(k)` on a missing key — F08d). -/
+theorem md_step_refines (c : MD.St κ ν) (h : WF c) (op : MD.Op κ ν) (hop : okOp c op = true) :
+    MD.step c op = MDSpec.step c op ∧ WF (MD.step c op).1 :=
+  ⟨C08L.md_step_refines c h op hop, C08L.md_step_wf c h op hop⟩
+
+example : okOp ([(1, [2])] : MD.St Nat Nat) (.setlist 1 [3, 4]) = true ∧ WF ([(1, [2])] : MD.St Nat Nat) :=
+  ⟨by decide, by simp [WF]⟩
+
+/-- Every read of the public API (`d[k]`, `getlist`, `in`, `len`, `keys`, `values`, `items`
+(multi on/off), `lists`, `listvalues`, `to_dict` (flat on/off)) on a well-formed state gives what the
+multimap model gives — in particular none of them raises IndexError. -/
+theorem md_read_refines (c : MD.St κ ν) (h : WF c) (q : Query κ) : MD.read c q = MDSpec.read c q :=
+  C08L.md_read_refines c h q
+
+/-- Refinement over EVERY history: from a well-formed state, after any sequence of operations that
+stays inside the model (`okHist`), the concrete state equals the model state, is well-formed, and
+every read agrees with the model. No bound on the length of the history or the sizes. -/
+theorem md_refines (c : MD.St κ ν) (h : WF c) (ops : List (MD.Op κ ν)) (hok : okHist c ops = true)
+    (q : Query κ) :
+    MD.read (MD.run c ops) q = MDSpec.read (MDSpec.run c ops) q := by
+  have := C08L.md_run_refines c h ops hok
+  rw [← this.1]
+  exact C08L.md_read_refines _ this.2 q
+
+example : okHist ([] : MD.St Nat Nat)
+    [.add 1 2, .add 1 3, .setitem 2 5, .setlist 1 [7, 8], .pop 2 none, .setlistdefault 1 [], .popitem,
+     .update (.mapping [(4, .many []), (5, .one 6)])] = true := by decide
+
+/-- The constructor establishes well-formedness for every supported input form (pairs, mapping with
+scalar / list values — empty lists are skipped); for a `MultiDict` argument it copies the argument. -/
+theorem md_construct_wf (arg : Option (MD.Arg κ ν)) (h : ∀ m, arg = some (.multi m) → WF m) :
+    WF (MD.construct arg) := by
+  cases arg with
+  | none => exact ⟨by simp [MD.construct], by simp [MD.construct]⟩
+  | some a =>
+    cases a with
+    | multi m => exact h m rfl
+    | pairs l => exact MDLemmas.wf_addAll ⟨by simp, by simp⟩ l
+    | mapping m =>
+      simp only [MD.construct]
+      have key : ∀ (t : List (κ × MD.MVal ν)) (acc : MD.St κ ν), WF acc → WF (t.foldl (fun tmp e =>
+          match e.2 with
+          | .one v => PyDict.set tmp e.1 [v]
+          | .many vs => if vs.isEmpty then tmp else PyDict.set tmp e.1 vs) acc) := by
+        intro t
+        induction t with
+        | nil => intro acc hacc; exact hacc
+        | cons e t ih =>
+          intro acc hacc
+          simp only [List.foldl_cons]
+          apply ih
+          obtain ⟨k, mv⟩ := e
+          cases mv with
+          | one v => exact MDLemmas.wf_set hacc k (List.cons_ne_nil v [])
+          | many vs =>
+            cases vs with
+            | nil => exact hacc
+            | cons x r => exact MDLemmas.wf_set hacc k (List.cons_ne_nil x r)
+      exact key m [] ⟨by simp, by simp⟩
+
+/-- F08d: the full statement (every operation keeps the state a multimap) is false:
+`MultiDict().setlist('a', [])` leaves the key `'a'` with zero values — `'a' in d` is true while
+`items()` raises IndexError, which no multimap state can exhibit. -/
+theorem md_step_wf_full_false :
+    ¬ (∀ (c : MD.St Nat Nat) (op : MD.Op Nat Nat), WF c → WF (MD.step c op).1) := by
+  intro h
+  have := (h [] (.setlist 0 []) ⟨by simp, by simp⟩).2 (0, []) (by simp [MD.step, PyDict.set])
+  exact this rfl
+
+/-- ... and the reads really disagree with every multimap: after `setlist('a', [])` (or
+`setlistdefault('a')`) the key is present but `items()`, `values()` and `to_dict()` fail. -/
+theorem md_zero_values_reads :
+    MD.read (MD.step ([] : MD.St Nat Nat) (.setlist 0 [])).1 (.contains 0) = .ok (.bool true) ∧
+    MD.read (MD.step ([] : MD.St Nat Nat) (.setlist 0 [])).1 (.items false) = .error "IndexError" ∧
+    MD.read (MD.step ([] : MD.St Nat Nat) (.setlist 0 [])).1 .values = .error "IndexError" ∧
+    MD.read (MD.step ([] : MD.St Nat Nat) (.setlist 0 [])).1 (.toDict true) = .error "IndexError" ∧
+    MD.read (MD.step ([] : MD.St Nat Nat) (.setlistdefault 0 [])).1 (.contains 0) = .ok (.bool true) ∧
+    MD.read (MD.step ([] : MD.St Nat Nat) (.setlistdefault 0 [])).1 (.items false) = .error "IndexError" := by
+  refine ⟨rfl, rfl, rfl, rfl, rfl, rfl⟩
+
+/-- the multimap model itself never leaves well-formed states (so `MDSpec` is a model of
+"insertion-ordered multimap" for every history, including the calls excluded above, where it
+removes / does not create the key) -/
+theorem mdspec_step_wf (m : MultiMap κ ν) (h : WF m) (op : MD.Op κ ν) : WF (MDSpec.step m op).1 := by
+  by_cases hop : okOp m op = true
+  · rw [← C08L.md_step_refines m h op hop]; exact C08L.md_step_wf m h op hop
+  · cases op with
+    | setlist k vs =>
+      simp only [okOp, Bool.not_eq_true', Bool.not_eq_false] at hop
+      simp only [MDSpec.step, hop, if_true]
+      exact MDLemmas.wf_filter h _
+    | setlistdefault k vs =>
+      simp only [okOp, Bool.or_eq_true, Bool.not_eq_true', not_or, Bool.not_eq_true,
+        Bool.not_eq_false] at hop
+      simp only [MDSpec.step, MDLemmas.hasKey_eq, hop.1, Bool.false_eq_true, if_false, hop.2, if_true]
+      exact h
+    | _ => simp [okOp] at hop
+
+end MultiDict
+
+/-! ## HeaderSet: the case-insensitive ordered set -/
+section HeaderSet
+open Hdr HS
+
+/-- `HeaderSet.Inv` (`_set` = lower-cased `_headers`, no two members equal ignoring case) is
+preserved by `add`, `remove` (as repaired), `discard`, `update`, `clear`, `del hs[i]`, and by
+`hs[i] = v` whenever `v` is not already a member at another position. -/
+theorem hs_inv_preserved (c : HS.St) (h : Inv c) (op : HS.Op) (hok : hsOk c op = true) :
+    Inv (HS.step c op).st :=
+  C08L.hs_inv_preserved c h op hok
+
+example : Inv (HS.construct [['a'], ['b']]) ∧ hsOk (HS.construct [['a'], ['b']]) (.setitem 0 ['A']) = true := by
+  decide
+
+/-- F08b: item assignment does NOT preserve the invariant in general:
+`hs = HeaderSet(['a','b']); hs[0] = 'B'` leaves items `['B','b']` with `len(hs) == 1`. -/
+theorem hs_inv_setitem_full_false :
+    ¬ (∀ (c : HS.St) (op : HS.Op), Inv c → Inv (HS.step c op).st) := by
+  intro h
+  exact absurd (h (HS.construct [['a'], ['b']]) (.setitem 0 ['B']) (by decide)) (by decide)
+
+/-- the constructor establishes the invariant when the input has no case-duplicates -/
+theorem hs_construct_inv (l : List Str) (h : (l.map lower).Nodup) : Inv (HS.construct l) :=
+  C08L.hs_construct_inv l h
+
+example : (([['a'], ['B'], ['c']] : List Str).map lower).Nodup := by decide
+
+/-- F08c: ... and does not otherwise: `HeaderSet(['a','A'])` has two items and `len == 1`. -/
+theorem hs_construct_inv_full_false : ¬ (∀ l : List Str, Inv (HS.construct l)) := by
+  intro h
+  exact absurd (h [['a'], ['A']]) (by decide)
+
+/-- One step: under the invariant every mutator acts on the member list exactly like the
+case-insensitive ordered set model (`HSSpec.step`) and raises the same exception. -/
+theorem hs_step_refines (c : HS.St) (h : Inv c) (op : HS.Op) :
+    (HS.step c op).st.headers = (HSSpec.step c.headers op).1 ∧
+    (HS.step c op).res = (HSSpec.step c.headers op).2 :=
+  C08L.hs_step_refines c h op
+
+/-- reads: membership and length agree with the model under the invariant (indexing, `find`,
+`index`, iteration, `to_header` are functions of the member list alone) -/
+theorem hs_reads_refine (c : HS.St) (h : Inv c) (x : Str) :
+    HS.contains c x = HSSpec.mem c.headers x ∧ HS.len c = c.headers.length :=
+  ⟨(mem_iff_contains c h x).symm, hs_len_eq c h⟩
+
+/-- Refinement over EVERY history: starting from a state satisfying the invariant, after any
+sequence of operations (item assignments restricted as in `hsOk`) the invariant holds and the member
+list is the one the ordered-set model computes. -/
+theorem hs_refines (c : HS.St) (h : Inv c) (ops : List HS.Op) (hok : hsOkHist c ops = true) :
+    Inv (HS.run c ops) ∧ (HS.run c ops).headers = hsSpecRun c.headers ops :=
+  C08L.hs_run_refines c h ops hok
+
+example : hsOkHist (HS.construct [['a'], ['b']])
+    [.remove ['A'], .add ['C'], .setitem 0 ['x'], .discard ['q'], .update [['b'], ['B'], ['d']], .delitem (-1)] = true := by
+  decide
+
+/-- the F08a regression (repaired by bc9f56a): `HeaderSet(['foo','bar']).remove('Foo')` removes the
+member from both `_headers` and `_set` -/
+theorem hs_remove_other_case :
+    (HS.step (HS.construct ["foo".toList, "bar".toList]) (.remove "Foo".toList)).st
+      = ⟨["bar".toList], ["bar".toList]⟩ := by
+  decide
+
+end HeaderSet
+
+/-! ## Headers.set algebra -/
+section Headers
+open Hdr
+
+/-- after `headers.set(k, v)` (newline-free `v`) the key has exactly the one value `v` -/
+theorem headers_set_getlist (l : HList) (k v : Str) (hv : hasNL v = false) :
+    getlist (Hdr.set l k v).1 k = [v] ∧ (Hdr.set l k v).2 = .ok () := by
+  rcases set_cases l k v hv with ⟨r, hs, he⟩ | ⟨hnone, he⟩
+  · rw [he]; simp [getlist, setLoop_filter_self k v l r hs]
+  · rw [he]
+    simp [getlist, List.filter_append, filter_keyEq_none k l hnone, keyEq_self]
+
+example : hasNL "text/plain".toList = false := by decide
+
+/-- ... every other entry (keys different ignoring case) keeps its value and the relative order of
+those entries is unchanged -/
+theorem headers_set_others_unchanged (l : HList) (k v : Str) (hv : hasNL v = false) :
+    (Hdr.set l k v).1.filter (fun p => !keyEq k p) = l.filter (fun p => !keyEq k p) := by
+  rcases set_cases l k v hv with ⟨r, hs, he⟩ | ⟨_, he⟩
+  · rw [he]; exact setLoop_filter_other k v l r hs
+  · rw [he]; simp [List.filter_append, keyEq_self]
+
+/-- ... hence `getlist` of any other key is unchanged -/
+theorem headers_set_getlist_other (l : HList) (k k' v : Str) (hv : hasNL v = false)
+    (hne : lower k' ≠ lower k) : getlist (Hdr.set l k v).1 k' = getlist l k' := by
+  unfold getlist
+  rw [filter_other_key k k' hne, headers_set_others_unchanged l k v hv, ← filter_other_key k k' hne]
+
+example : lower "Content-Type".toList ≠ lower "content-length".toList := by decide
+
+/-- ... and the new pair sits at the position of the first former occurrence of the key, or at
+the end when there was none -/
+theorem headers_set_position (l : HList) (k v : Str) (hv : hasNL v = false) :
+    let pos := if contains l k then l.findIdx (keyEq k) else l.length
+    (Hdr.set l k v).1.findIdx (keyEq k) = pos ∧ (Hdr.set l k v).1[pos]? = some (k, v) := by
+  rcases set_cases l k v hv with ⟨r, hs, he⟩ | ⟨hnone, he⟩
+  · have hc : contains l k = true := by
+      unfold contains
+      cases hf : l.find? (keyEq k) with
+      | some _ => rfl
+      | none =>
+        rw [List.find?_eq_none] at hf
+        have hall : ∀ p ∈ l, keyEq k p = false := fun p hp => by simpa using hf p hp
+        rw [setLoop_none_of k v l hall] at hs
+        exact absurd hs (by simp)
+    simp only [hc, if_true]
+    rw [he]
+    exact setLoop_findIdx k v l r hs
+  · have hc : contains l k = false := by
+      unfold contains
+      cases hf : l.find? (keyEq k) with
+      | none => rfl
+      | some p =>
+        have := List.find?_some hf
+        have := hnone p (List.mem_of_find?_eq_some hf)
+        simp_all
+    simp only [hc, Bool.false_eq_true, if_false]
+    rw [he]
+    constructor
+    · rw [List.findIdx_append]
+      have : l.findIdx (keyEq k) = l.length := by
+        rw [List.findIdx_eq_length]; intro p hp; simp [hnone p hp]
+      simp [this, List.findIdx_cons, keyEq_self]
+    · simp
+
+/-- a value containing CR or LF is refused with ValueError and the list is left unchanged -/
+theorem headers_set_refuses_newline (l : HList) (k v : Str) (hv : hasNL v = true) :
+    Hdr.set l k v = (l, .error "ValueError") := by
+  simp [Hdr.set, strHeaderValue, hv]
+
+example : hasNL "a\r\nSet-Cookie: x".toList = true := by decide
+
+/-- `remove(k)` / `del h[k]` removes exactly the entries of that key -/
+theorem headers_remove (l : HList) (k : Str) :
+    getlist (delKey l k) k = [] ∧
+    (delKey l k).filter (fun p => !keyEq k p) = l.filter (fun p => !keyEq k p) := by
+  constructor
+  · simp only [getlist, delKey, List.filter_filter]
+    have : (l.filter fun a => keyEq k a && !keyEq k a) = [] := by
+      rw [List.filter_eq_nil_iff]; intro a _; cases keyEq k a <;> simp
+    simp [this]
+  · simp [delKey, List.filter_filter]
+
+end Headers
+
+/-! ## CombinedMultiDict reads through to the wrapped dicts -/
+section Combined
+open PyDict MD
+variable {κ ν : Type} [DecidableEq κ]
+
+/-- `combined[k]` is `d[k]` of the first wrapped dict that contains `k`; `getlist` concatenates the
+dicts' lists; `k in combined` iff some dict contains it — for every list of dicts (so a change to a
+wrapped dict is visible through the view: the view holds no data of its own). -/
+theorem combined_reads_through (c : CMD.St κ ν) (k : κ) :
+    CMD.getitem c k = (match c.find? (has · k) with
+      | some d => MD.getitem d k
+      | none => .error "BadRequestKeyError") ∧
+    CMD.getlist c k = (c.map (MD.getlist · k)).flatten ∧
+    (CMD.contains c k = true ↔ ∃ d ∈ c, has d k = true) := by
+  refine ⟨?_, ?_, ?_⟩
+  · induction c with
+    | nil => rfl
+    | cons d t ih =>
+      simp only [CMD.getitem, List.find?_cons]
+      cases has d k <;> simp [ih]
+  · simp [CMD.getlist, List.flatMap_def]
+  · simp [CMD.contains]
+
+end Combined
+
+/-! ## EnvironHeaders reflects the environ -/
+section Environ
+open Hdr PyDict EH
+
+/-- the environ variable a header name is looked up under -/
+def envName (key : Str) : Str :=
+  let k := replaceCh '-' '_' (upper key)
+  if special k then k else "HTTP_".toList ++ k
+
+/-- The view has no state of its own: a lookup after the environ variable was set returns the new
+value, and after it was deleted raises KeyError — for every environ and header name. -/
+theorem environ_view_reflects (env : Env) (key v : Str) :
+    EH.getKey (PyDict.set env (envName key) v) key = .ok v ∧
+    (NodupKeys env → EH.getKey (PyDict.erase env (envName key)) key = .error "KeyError") := by
+  have getKey_eq : ∀ e : Env, EH.getKey e key =
+      (match PyDict.get? e (envName key) with | some v => .ok v | none => .error "KeyError") := by
+    intro e; simp only [EH.getKey, envName]; rfl
+  constructor
+  · rw [getKey_eq]; unfold PyDict.get?; rw [lookup_set_self]
+  · intro hn
+    rw [getKey_eq]
+    have : PyDict.get? (PyDict.erase env (envName key)) (envName key) = none := by
+      unfold PyDict.get?
+      rw [erase_eq_filter env _ hn]
+      have hnot : envName key ∉ PyDict.keys (env.filter fun e => !(e.1 == envName key)) := by
+        simp only [PyDict.keys, List.mem_map, List.mem_filter]
+        rintro ⟨e, ⟨_, he⟩, heq⟩
+        simp [heq] at he
+      have := (mem_keys_iff_lookup _ _).not.1 hnot
+      exact Option.not_isSome_iff_eq_none.1 this
+    rw [this]
+
+end Environ
+
 end Wz.Props.C08
